@@ -11,8 +11,11 @@ type Job struct {
 	// Dirs: relative directories to create (for directory-as-target cases).
 	Dirs []string `json:"dirs,omitempty"`
 	// Root: relative path of the root file. With AbsRoot set the root is used as is (corpus on disk).
-	Root    string `json:"root"`
-	AbsRoot bool   `json:"absRoot,omitempty"`
+	Root string `json:"root"`
+	// RootSpelling: how the path of the root file is spelt after the project directory ("./root.jst", ".//root.jst",
+	// "sub/../root.jst"): the same file, another text. Empty: the clean path.
+	RootSpelling string `json:"rootSpelling,omitempty"`
+	AbsRoot      bool   `json:"absRoot,omitempty"`
 	// InMemory: build with kit.NewJApiFromFile(fs.NewFile(Root, Files[Root])) – no disk involved (no INCLUDE).
 	InMemory bool `json:"inMemory,omitempty"`
 	// ViaCore: build through core.NewJApiCore(...).BuildCatalog() instead of kit (C19).
@@ -220,4 +223,6 @@ type FatalInfo struct {
 	Kind   string `json:"kind"` // stack-overflow, runtime-throw, killed, hang, exit
 	Func   string `json:"func"`
 	Stderr string `json:"stderr"`
+	// Stage: "build" when the dump shows the worker inside the build of the project, "call" inside an accessor call, "" unknown
+	Stage string `json:"stage,omitempty"`
 }
